@@ -49,7 +49,7 @@ func TestC10(t *testing.T) {
 		if e.cfg.Thorough() {
 			depths = append(depths, 1000000)
 		}
-		e.feed(feedOpts{counts: 1, shortlexQ: 3, shortlexT: 5, sweepQ: 100, sweepT: 3000, sweepMaxLen: 64, nestQ: 60, nestT: 600, indentQ: 16, indentT: 300, numShapes: 2, strRuns: true, tokenSweepQ: 20, templateSweep: true, amplify: true, nestDepths: depths,
+		e.feed(feedOpts{counts: 1, streams: true, shortlexQ: 3, shortlexT: 5, sweepQ: 100, sweepT: 3000, sweepMaxLen: 64, nestQ: 60, nestT: 600, indentQ: 16, indentT: 300, numShapes: 2, strRuns: true, tokenSweepQ: 20, templateSweep: true, amplify: true, nestDepths: depths,
 			mutQ: 30000, mutT: 1000000, nextByte: false, alignment: true, noDepthSites: true}, evalBytes)
 		// 1b. number literals on the rarest conversion paths (exact ties incl. 2^-1075, the
 		// overflow threshold, 800-digit mantissas): a panic deep in the float fallback is a
